@@ -159,10 +159,14 @@ def run_refval(desc):
     bits = ref.bits_of(s, n)
     a = ref.lc_definition(bits)
     b = ref.bm_list(bits)
-    c, changes, _ = ref.bm_int(s, n, profile=True)
-    # schedule-based construction must invert: discrepancy positions -> same sequence
-    if not a == b == c:
-      raise RuntimeError('reference implementations disagree on n=%d s=%d: %r' % (n, s, (a, b, c)))
+    c = ref.bm_int(s, n)
+    # the generators' constructor must invert: discrepancy positions -> the same sequence
+    online = ref.OnlineBM()
+    discs = [i for i, bit in enumerate(bits) if online.push(bit)]
+    back = ref.from_discrepancies(n, discs)
+    if not (a == b == c == online.L) or back != (s, a):
+      raise RuntimeError('reference implementations disagree on n=%d s=%d: %r' %
+                         (n, s, (a, b, c, online.L, back)))
   return {'nt': n > 0, 'cls': ['refs-agree,n=%d' % n], 'sequences': desc['hi'] - desc['lo']}
 
 
@@ -318,9 +322,7 @@ def _expand(desc):
       for i in range(length):
         if (bits >> i) & 1:
           ev.add(start + i)
-    s, L = ref.from_discrepancies(n, ev)
-    desc_L = L
-    return s, desc_L
+    return ref.from_discrepancies(n, ev)   # (s, L implied by the schedule)
   raise RuntimeError('unknown family %r' % fam)
 
 
@@ -690,11 +692,20 @@ def _fuzz_build():
   for other in glob.glob(os.path.join(boot.BUILD, 'fuzz-*')):
     try:
       if other != d and '.tmp' not in other and \
-          os.path.getmtime(other) < time.time() - 3600:
+          os.path.getmtime(other) < time.time() - (6 * 3600 if 'fuzz-run-' in other else 3600):
         shutil.rmtree(other, ignore_errors=True)
     except OSError:
       pass
   return os.path.join(d, 'bm_fuzz'), os.path.join(d, 'seeds')
+
+
+def _die_with_parent():
+  # PR_SET_PDEATHSIG: do not leave an orphan fuzzer behind when the worker is killed
+  try:
+    import ctypes  # pylint: disable=g-import-not-at-top
+    ctypes.CDLL('libc.so.6').prctl(1, 9)
+  except Exception:  # pylint: disable=broad-except
+    pass
 
 
 def _fuzz_decode(data):
@@ -710,10 +721,15 @@ def enum_fuzz(tier):
   except ValueError:
     seed = 1
   # about 1.3k executions/s on a loaded machine (ASan+UBSan, three implementations per input)
-  jobs, runs = (1, 25000) if tier == 'quick' else (12, 400000)
-  for j in range(jobs):
+  # (the cost per input grows quadratically with max_len)
+  if tier == 'quick':
+    yield {'seed': derive_seed(seed, 'C14', 'fuzz', 0) % (2**31 - 1) + 1, 'runs': 25000,
+           'max_len': 210, 'max_time': 600}
+    return
+  for j in range(12):
+    max_len, runs = ((210, 400000), (400, 200000), (700, 100000))[j % 3]
     yield {'seed': derive_seed(seed, 'C14', 'fuzz', j) % (2**31 - 1) + 1, 'runs': runs,
-           'max_len': 210 if tier == 'quick' else (210, 400, 700)[j % 3]}
+           'max_len': max_len, 'max_time': 2400}
 
 
 def run_fuzz(desc):
@@ -732,8 +748,9 @@ def run_fuzz(desc):
     r = subprocess.run(
         [binary, '-seed=%d' % desc['seed'], '-runs=%d' % desc['runs'],
          '-max_len=%d' % desc['max_len'], '-timeout=60', '-rss_limit_mb=3000',
+         '-max_total_time=%d' % desc.get('max_time', 2400),
          '-artifact_prefix=' + art, '-print_final_stats=1', corpus],
-        env=env, capture_output=True, text=True, errors='replace')
+        env=env, capture_output=True, text=True, errors='replace', preexec_fn=_die_with_parent)
     found = sorted(glob.glob(art + '*'))
     if found:
       with open(found[0], 'rb') as f:
@@ -771,7 +788,7 @@ def run_fuzz(desc):
 ARMS = [
     Arm('fuzz', run_fuzz, enumerate=enum_fuzz, shards=12, weight=10.0, budget=(600, 14400),
         doc='libFuzzer over both C++ variants + in-driver reference, ASan/UBSan'),
-    Arm('sequences', run_sequences, strategy=strat_sequences, quick=40000, thorough=600000,
+    Arm('sequences', run_sequences, strategy=strat_sequences, quick=40000, thorough=400000,
         budget=(100, 1500), weight=5.0,
         doc='constructed and random sequences, all implementations vs reference BM'),
     Arm('lengths', run_sequences, enumerate=enum_lengths, exhaustive=True,
